@@ -34,6 +34,15 @@ MUT = [
  ("c09-negative-last-match-first", "C09", "element.py",
   "        return text, list(regex.finditer(text))[-1]",
   "        return text, list(regex.finditer(text))[0]", "V"),
+ ("c09-range-end-before-start", "C09", "element.py",
+  "            parent.insert(0, end.__element)\n            parent.insert(0, start.__element)",
+  "            parent.insert(0, start.__element)\n            parent.insert(0, end.__element)", "V"),
+ ("c09-main-text-parent-only", "C09", "element.py",
+  "    \"descendant::text()[not (ancestor::office:annotation)]\"",
+  "    \"descendant::text()[not (parent::office:annotation)]\"", "V"),
+ ("c09-strip-default-overwrites-text", "C09", "element.py",
+  "            for content in element:\n                new.__append(content)",
+  "            for content in element:\n                if isinstance(content, Element):\n                    new.__append(content)\n                else:\n                    new.text = content", "V"),
  # behaviour-preserving
  ("c09-rewrite-index-loop", "C09", "paragraph.py",
   "                for group in reversed(list(pattern.finditer(text))):\n                    start, end = group.span()",
@@ -55,18 +64,24 @@ MUT = [
   "                    owner = container.parent",
   "                    owner = container", "V"),
  ("c16-search-all-other-text", "C16", "element.py",
-  "        for match in re.finditer(pattern, self.text_recursive):",
-  "        for match in re.finditer(pattern, self.inner_text.rstrip()):", "V"),
+  "        for match in re.finditer(pattern, self._own_text):",
+  "        for match in re.finditer(pattern, self._own_text.rstrip()):", "V"),
  ("c16-replace-skips-empty-result", "C16", "element.py",
   "                if text.is_text():  # type: ignore\n                    container.text = new_text  # type: ignore\n                    owner: Element | None = container",
   "                if not new_text and not text.is_text():\n                    continue\n                if text.is_text():  # type: ignore\n                    container.text = new_text  # type: ignore\n                    owner: Element | None = container", "V"),
  ("c16-format-only-first-owner", "C16", "element.py",
   "        for owner in to_format:\n            owner.append_plain_text(\"\")  # type: ignore",
   "        for owner in to_format[:1]:\n            owner.append_plain_text(\"\")  # type: ignore", "V"),
+ ("c16-own-text-includes-notes", "C16", "element.py",
+  "            if child.tag not in (\"text:note\", \"office:annotation\"):\n                result.append(child._own_text)",
+  "            result.append(child._own_text)", "V"),
+ ("c16-text-at-uses-tail", "C16", "element.py",
+  "            return self._own_text[start:]",
+  "            return (self._own_text + (self.tail or \"\"))[start:]", "V"),
  # behaviour-preserving
  ("c16-rewrite-compiled-search", "C16", "element.py",
-  "        match = re.search(pattern, self.text_recursive)\n        if match is None:\n            return None\n        return match.start(), match.end()",
-  "        found = re.compile(pattern).search(self.inner_text + (self.tail or \"\"))\n        return None if found is None else found.span()", "S"),
+  "        match = re.search(pattern, self._own_text)\n        if match is None:\n            return None\n        return match.start(), match.end()",
+  "        found = re.compile(pattern).search(self._own_text)\n        return None if found is None else found.span()", "S"),
  ("c16-rewrite-count-first", "C16", "element.py",
   "                new_text, number = cpattern.subn(new, str(text))\n                container = text.parent",
   "                old_text = str(text)\n                number = len(cpattern.findall(old_text))\n                new_text = cpattern.sub(new, old_text)\n                container = text.parent", "S"),
